@@ -174,6 +174,9 @@ impl Known {
     pub fn load() -> Known {
         let path = format!("{}/known_findings.json", VERIF_DIR);
         let mut k = Known::default();
+        // maintenance aid (never set by the registered commands): pretend the listed findings are not
+        // in the file, so that the exploration rediscovers them and their witnesses can be recorded
+        let ignore: Vec<String> = std::env::var("VERIF_IGNORE_KNOWN").map(|s| s.split(',').map(|x| x.to_string()).collect()).unwrap_or_default();
         let Ok(s) = std::fs::read_to_string(&path) else { return k };
         let Ok(v) = serde_json::from_str::<Value>(&s) else {
             eprintln!("warning: cannot parse {}", path);
@@ -183,6 +186,9 @@ impl Known {
             let strs = |key: &str| -> Vec<String> {
                 e.get(key).and_then(|x| x.as_array()).map(|a| a.iter().filter_map(|s| s.as_str().map(|s| s.to_string())).collect()).unwrap_or_default()
             };
+            if ignore.iter().any(|i| Some(i.as_str()) == e.get("id").and_then(|x| x.as_str())) {
+                continue;
+            }
             k.entries.push(KnownEntry {
                 id: e.get("id").and_then(|x| x.as_str()).unwrap_or("?").to_string(),
                 status: e.get("status").and_then(|x| x.as_str()).unwrap_or("known").to_string(),
@@ -427,6 +433,25 @@ pub fn explore_random<P: PatProp>(
     cases: u64,
     accept: &(dyn Fn(&Node) -> bool + Sync),
 ) -> (Stats, Option<Found>) {
+    explore_random_with(ctx, prop, label, texts, cases, &|bytes| {
+        let n = gen::decode_pattern(cfg, bytes);
+        if accept(&n) {
+            Some(n)
+        } else {
+            None
+        }
+    })
+}
+
+/// as `explore_random` with a caller supplied byte decoder (None = generated value outside the domain)
+pub fn explore_random_with<P: PatProp>(
+    ctx: &RunCtx,
+    prop: &P,
+    label: &str,
+    texts: &[String],
+    cases: u64,
+    decode: &(dyn Fn(&[u8]) -> Option<Node> + Sync),
+) -> (Stats, Option<Found>) {
     let shards = rayon::current_num_threads().max(1) as u64;
     let per = (cases + shards - 1) / shards;
     let results: Vec<(Stats, Option<Found>)> = (0..shards)
@@ -439,13 +464,15 @@ pub fn explore_random<P: PatProp>(
             let failed = Cell::new(false);
             let strat = proptest::collection::vec(proptest::num::u8::ANY, 0..96);
             let res = runner.run(&strat, |bytes| {
-                let n = gen::decode_pattern(cfg, &bytes);
-                if !accept(&n) {
-                    if !failed.get() {
-                        stats.borrow_mut().skip("generator:filtered");
+                let n = match decode(&bytes) {
+                    Some(n) => n,
+                    None => {
+                        if !failed.get() {
+                            stats.borrow_mut().skip("generator:filtered");
+                        }
+                        return Ok(());
                     }
-                    return Ok(());
-                }
+                };
                 let count = !failed.get();
                 let r = run_pattern(ctx, prop, &n, texts, &mut stats.borrow_mut(), count);
                 match r {
@@ -458,11 +485,10 @@ pub fn explore_random<P: PatProp>(
             });
             let found = match res {
                 Ok(()) => None,
-                Err(TestError::Fail(_, bytes)) => {
-                    let n = gen::decode_pattern(cfg, &bytes);
+                Err(TestError::Fail(_, bytes)) => decode(&bytes).and_then(|n| {
                     let mut scratch = Stats::default();
                     run_pattern(ctx, prop, &n, texts, &mut scratch, false)
-                }
+                }),
                 Err(TestError::Abort(r)) => {
                     eprintln!("proptest aborted: {}", r);
                     None
